@@ -24,12 +24,14 @@ import (
 //	the same canonical bytes.  Direct checks: the reader agrees with protojson.Unmarshal
 //	(json_io.go adds nothing); a text tagged :R (unknown / duplicate field, wrong JSON
 //	type, uint32 out of range, unknown enum name, bad base64 character, syntax) is refused;
+//	a text tagged :A (the dangling exponent marker protobuf-go's integer path tolerates) is read;
 //	what the JSON WRITER makes of the returned message is read back as the same message;
 //	and when the keyset yields a handle, insecurecleartextkeyset.Write to JSON and Read
 //	give the same keyset material back.
 func runJSONText(f []string) string {
 	text := hx.UH(f[3])
 	tagR := strings.Contains(f[1], ":R")
+	tagA := strings.Contains(f[1], ":A")
 	var msg, direct proto.Message
 	var err, derr error
 	if f[2] == "K" {
@@ -54,6 +56,9 @@ func runJSONText(f []string) string {
 		return fail("the JSON reader and protojson.Unmarshal disagree about the text")
 	}
 	if err != nil {
+		if tagA {
+			return "err|chk=a text protojson reads by construction (dangling exponent marker on an integer field) was refused (" + f[1] + ")"
+		}
 		return "err|chk=ok"
 	}
 	if tagR {
@@ -249,6 +254,20 @@ func directedJSONText() []string {
 			}
 		}
 	}
+	// the dangling exponent marker on every integer / enum field of both schemas, bare and string form
+	for _, d := range ksjson.DanglingTexts() {
+		out = append(out, lineT(jtTag("dangling-e-field", d.Exp), d.Kind, d.Text))
+	}
+	// end to end: the text of Tink's own writer with the primary key id given a dangling marker
+	for i := 0; i < 4; i++ {
+		var buf bytes.Buffer
+		ks := mk()
+		if keyset.NewJSONWriter(&buf).Write(ks) == nil {
+			if t := danglingPrimary(buf.String()); t != "" {
+				out = append(out, lineT("jt-dangling-e-writer:A", "K", t))
+			}
+		}
+	}
 	// empty and default messages
 	for _, t := range []string{`{}`, `{"key":[]}`, `{"key":null,"primaryKeyId":null}`, `{"key":[{}]}`, `{"key":[{"keyData":{}}]}`} {
 		out = append(out, lineT("jt-defaults", "K", t))
@@ -257,4 +276,24 @@ func directedJSONText() []string {
 		out = append(out, lineT("jt-defaults", "E", t))
 	}
 	return out
+}
+
+// danglingPrimary rewrites  "primaryKeyId":<digits>  of a JSON text to  "primaryKeyId":<digits>e .
+func danglingPrimary(t string) string {
+	i := strings.Index(t, `"primaryKeyId":`)
+	if i < 0 {
+		return ""
+	}
+	j := i + len(`"primaryKeyId":`)
+	for j < len(t) && t[j] == ' ' {
+		j++
+	}
+	k := j
+	for k < len(t) && t[k] >= '0' && t[k] <= '9' {
+		k++
+	}
+	if k == j {
+		return ""
+	}
+	return t[:k] + "e" + t[k:]
 }
